@@ -12,6 +12,7 @@ import XmppModel.Model.IbbCarrier
 import XmppModel.Lemmas.IbbCarrier
 import XmppModel.Model.IbbWriteSide
 import XmppModel.Model.IbbFlow
+import XmppModel.Model.IbbWrap
 import XmppModel.Lemmas.IbbFlow
 import XmppModel.Lemmas.IbbWriteSide
 import XmppModel.Generated.C15
@@ -418,9 +419,16 @@ theorem C15_open_register_first_fails :
     registersIffAccepted [.other, .register, .fallible true, .other, .fallible true, .fallible true,
       .fallible false] = false := by decide
 
-/-- the packet counters of both sides are 16 bit counters advanced by one: they wrap at 65536,
-the modulus of `recv` / `seqsFrom` (regenerated from the field types and the increment
-statements of `handlePayload` and `stanzaWriter.Write`) -/
+/-- PROBE FACTS (round E; they replace the source-shape facts about the increment statements): the
+real receiver, after 65535 accepted packets, answers packets numbered `65535`, `65536`, `0`, `0`, `1`
+exactly as the model does (ack, unexpected-request, ack, unexpected-request, ack: the counter wraps
+from 65535 to 0 and at no other point); the data stanzas number 65534 … 65537 of the real sender
+carry the numbers the packetiser predicts (65534, 65535, 0, 1) -/
+theorem C15_recv_wrap_probe : Generated.C15.recvWrapProbe = some recvWrapModel := by decide
+
+theorem C15_send_wrap_probe : Generated.C15.sendWrapProbe = some sendWrapModel := by decide
+
+/-- both counters wrap at 65536, the modulus of `recv` / `seqsFrom` (derived from the two probes) -/
 theorem C15_seq_modulus_fact :
     Generated.C15.recvSeqModulus = some 65536 ∧ Generated.C15.sendSeqModulus = some 65536 := by decide
 
